@@ -17,6 +17,8 @@ pub enum Entry {
         faulted: bool,
         /// bytes that reached the file when a write was shortened
         short: Option<usize>,
+        /// (rename) did the destination exist when the operation was issued
+        dest_existed: bool,
     },
     /// result of an open
     Opened { task: Option<usize>, ev: IoEvent },
@@ -36,11 +38,16 @@ impl IoLog {
             TapAction::Short(n, _) => Some(*n),
             _ => None,
         };
+        let dest_existed = match &ev.op {
+            IoOp::Rename { to } => to.exists(),
+            _ => false,
+        };
         self.entries.push(Entry::Io {
             task,
             ev,
             faulted,
             short,
+            dest_existed,
         });
     }
 
@@ -220,7 +227,7 @@ pub fn append_only_violations(
     let mut out = Vec::new();
     for e in &log.entries[from.min(log.entries.len())..] {
         match e {
-            Entry::Io { ev, faulted, .. } => {
+            Entry::Io { ev, faulted, dest_existed, .. } => {
                 let blob = is_blob(&ev.path);
                 match &ev.op {
                     IoOp::Write {
@@ -253,7 +260,7 @@ pub fn append_only_violations(
                                 short_path(&ev.path),
                                 to.display()
                             ));
-                        } else if to.exists() {
+                        } else if *dest_existed {
                             out.push(format!(
                                 "rename of {} over existing {}",
                                 short_path(&ev.path),
